@@ -898,6 +898,33 @@ pub fn run(out: &mut Out, tier: &str, seed: u64, prop: &str) {
                         }
                     }
                 }
+                // (X or Y or Z) and (P or Q) over related atoms and their negations: clauses from which the simplifier
+                // removes two or more terms, where a later term only looks redundant through an already removed one
+                {
+                    let atoms: Vec<Term> = vec![
+                        Term::S(1, 0, "posix".into()), Term::S(1, 1, "nt".into()), Term::S(12, 1, "win32".into()), Term::S(12, 0, "win32".into()),
+                        Term::X(true, "b".into()), Term::X(false, "a".into()), Term::X(false, "c".into()),
+                    ];
+                    let n = atoms.len();
+                    for i in 0..n { for j in (i + 1)..n { for k in (j + 1)..n {
+                        for p1 in 0..n { for q1 in (p1 + 1)..n {
+                            if !big && (i + 2 * j + 3 * k + 5 * p1 + 7 * q1) % 3 != 0 { continue; }
+                            shapes.push(Term::and(Term::or(Term::or(atoms[i].clone(), atoms[j].clone()), atoms[k].clone()), Term::or(atoms[p1].clone(), atoms[q1].clone())));
+                        } }
+                    } } }
+                }
+                // two-sided ranges on string keys (two terms pushed for one edge), before another live edge of the same
+                // node and nested under another string key whose later value is live too
+                for (k1, k2) in [(1usize, 8usize), (8, 12), (1, 12)] {
+                    for (a, b, c) in [("5", "6", "9"), ("a", "b", "c"), ("", "m", "z")] {
+                        let rng2 = |k: usize| Term::and(Term::S(k, 3, a.into()), Term::S(k, 4, b.into()));       // >= a and < b
+                        shapes.push(Term::or(rng2(k2), Term::S(k2, 2, c.into())));                                 // [a,b) or > c
+                        shapes.push(Term::or(Term::and(rng2(k2), Term::X(false, "dev".into())), Term::S(k2, 2, c.into())));
+                        shapes.push(Term::or(Term::and(Term::S(k1, 0, "nt".into()), rng2(k2)), Term::S(k1, 0, "posix".into())));
+                        shapes.push(Term::or(Term::and(Term::S(k1, 0, "nt".into()), rng2(k2)), Term::and(Term::S(k1, 0, "posix".into()), Term::S(k2, 2, c.into()))));
+                        shapes.push(Term::and(Term::V(1, 5, "3.8".into()), Term::or(Term::and(Term::S(k1, 0, "nt".into()), rng2(k2)), Term::S(k1, 2, "posix".into()))));
+                    }
+                }
                 // values containing a quote character under every string operator (8 = contains, 9 = not contains:
                 // the literal is printed on the left), alone and inside and/or
                 for key in [1usize, 2, 12] {
